@@ -84,8 +84,8 @@ def _sub_filter():
 class Tap:
     """Mapped function / source stage: logs start / end (or pull) events and fails where told to."""
 
-    def __init__(self, kind, fail=None, visible=True, add=0):
-        self.kind, self.fail, self.visible, self.add = kind, dict(fail or {}), visible, add
+    def __init__(self, kind, fail=None, visible=True, add=0, payload=None):
+        self.kind, self.fail, self.visible, self.add, self.payload = kind, dict(fail or {}), visible, add, payload
 
     def __call__(self, x):
         s = S.CUR
@@ -106,7 +106,31 @@ class Tap:
             raise exc_type(self.fail[pos])(f'fn:{pos}')
         if s is not None and S.cur_thread() is not None:
             s.emit('end', pos)
-        return x + self.add
+        return wrap_payload(x + self.add, self.payload)
+
+
+class EqAny:
+    """An example whose __eq__ answers True to everything (like unittest.mock.ANY)."""
+
+    def __init__(self, v):
+        self.v = v
+
+    def __eq__(self, other):
+        return True
+
+    def __hash__(self):
+        return 0
+
+
+def wrap_payload(v, kind):
+    if kind == 'ndarray':
+        import numpy as np
+        return np.array([v, v + 1])
+    if kind == 'eq_any':
+        return EqAny(v)
+    if kind == 'none':
+        return None if v % 2 else v
+    return v
 
 
 def _plus1000(x):
@@ -140,7 +164,7 @@ class Harness:
             ds = base
             if fail_src or cfg.get('pull_tap'):
                 ds = ds.map(Tap('pull', fail_src, vis))
-            ds = ds.map(Tap('fn', fail_fn, vis, add=100))
+            ds = ds.map(Tap('fn', fail_fn, vis, add=100, payload=cfg.get('payload')))
             for stage in cfg.get('pre', []):
                 ds = self._stage(ds, stage)
             kw = {}
@@ -160,7 +184,8 @@ class Harness:
                 ds = src.cache()
         elif entry == 'parmap':
             ds = base.map(Tap('pull', fail_src, vis))
-            ds = ds.map(Tap('fn', fail_fn, vis, add=100), num_workers=w, buffer_size=b, backend=backend)
+            ds = ds.map(Tap('fn', fail_fn, vis, add=100, payload=cfg.get('payload')), num_workers=w, buffer_size=b,
+                        backend=backend)
         else:
             raise ValueError(entry)
         for stage in cfg.get('post', []):
@@ -253,6 +278,18 @@ class Harness:
                     for x in it:
                         s.emit('deliver', _val(x))
                         rec['delivered'].append(_val(x))
+                elif consumer[0] == 'two-iterators':
+                    # two independent iterations over the same dataset object are alive at the same time
+                    k = consumer[1]
+                    first, second = [], []
+                    for _ in range(k):
+                        first.append(_val(next(it)))
+                    it2 = iter(self.ds.items()) if cfg.get('mode') == 'items' else iter(self.ds)
+                    for x in it2:
+                        second.append(_val(x))
+                    for x in it:
+                        first.append(_val(x))
+                    rec['delivered'] = [first, second]
                 else:
                     k = consumer[1]
                     stopped_early = False
@@ -298,6 +335,12 @@ def _profile_counts(node):
 
 
 def _val(x):
+    if isinstance(x, EqAny):
+        return ['eq_any', x.v]
+    if type(x).__module__ == 'numpy' and hasattr(x, 'tolist'):
+        return ['ndarray', x.tolist()]
+    if x is None:
+        return None
     if isinstance(x, tuple):
         return [_val(v) for v in x]
     if isinstance(x, list):
